@@ -523,11 +523,16 @@ class ParameterSet(
                 'At least 1 ParameterSet instance must be provided to the '
                 'union static function!')
 
-        paramset = ParameterSet(params=paramsets[0])
+        # The new ParameterSet instance holds copies of the Parameter instances.
+        # With shared Parameter instances, fixing or floating a parameter
+        # through one parameter set would leave the fixed/floating bookkeeping
+        # of the other parameter set out of sync with its Parameter instances.
+        paramset = ParameterSet(
+            params=[deepcopy(param) for param in paramsets[0]._params])
         for paramset_i in paramsets[1:]:
             for param in paramset_i._params:
                 if not paramset.has_param(param):
-                    paramset.add_param(param)
+                    paramset.add_param(deepcopy(param))
 
         return paramset
 
